@@ -1,8 +1,8 @@
 SPECIFICATION MCSpec
 CONSTANTS
-  Tokens <- TokensCore
+  Tokens <- TokensTiny
   MaxArgs = 2
-  Cfgs = {1, 2}
+  Cfgs = {1, 2, 3}
   Switch = TRUE
   GenDepth = 0
 INVARIANTS TypeOK OptindBound ConsumedPrefix RefsConsumed EndIffExhausted Determined
